@@ -94,10 +94,14 @@ def gen_options(rng, enabled, inp, params):
             opts += cs
         elif k == 'grid':
             opts += ['-g'] + rng.choice([['2.0', '10.0', '0.5'], ['0.0', '14.0', '0.25'],
-                                         ['3.0', '9.0', '1.0']])
+                                         ['3.0', '9.0', '1.0'], ['1.5', '12.5', '0.7'],
+                                         ['6.0', '8.0', '0.1']])
         elif k == 'window':
+            # including boundary values: a step that rounds to 0.00 makes the
+            # writer fail (a naturally failing call), a tiny one does not
             opts += ['-w'] + rng.choice([['1.0', '9.0', '2.0'], ['0.0', '14.0', '0.5'],
-                                         ['4.0', '8.0', '1.0']])
+                                         ['4.0', '8.0', '1.0'], ['0.0', '14.0', '0.001'],
+                                         ['0.0', '14.0', '0.01'], ['2.0', '12.0', '0.25']])
         elif k == 'ref':
             opts += ['-r', 'low-pH']
         elif k == 'ph':
